@@ -247,6 +247,22 @@ def gen_edit(r, rng):
     if bad:
         lst.insert(rng.randrange(0, len(lst) + 1), rng.choice([None, "x", 3]))
 
+    raising = (not bad) and rng.random() < 0.25
+    if raising:
+        # the caller's iterable raises after delivering all (or some) of the items: the assignment is refused as a whole
+        k = rng.randrange(0, len(lst) + 1)
+
+        def gen():
+            for j, it in enumerate(lst):
+                if j == k:
+                    raise OSError("the caller's iterable failed")
+                yield it
+            raise OSError("the caller's iterable failed")
+
+        def assign_raising():
+            r.blk.platforms = gen()
+        return (assign_raising, [Sym("assignItems"), [m for m, _ in new], 1], "assign items (iterable raises)")
+
     def assign():
         r.blk.platforms = lst
     return (assign, [Sym("assignItems"), [m for m, _ in new], 1 if bad else 0], "assign items" + (" (bad element)" if bad else ""))
